@@ -46,6 +46,14 @@ CLAIMED = {
             "and comparing (type, text, line, column) of every token and (kind, line, column) of every lexical error.",
             "Trusted: Lean kernel (propext, Quot.sound, Classical.choice from omega/simp), table translator, harness+orchestrator; C-locale "
             "character classes assumed.", "DESIGN.md §4 C15"),
+    "C19": ("Lean 4 invariant proofs about a model of ModuleLoader over an explicit file system (load-once = Nodup merge order, "
+            "dependencies strictly before importers, first-root resolution in the documented order, exactly one main, cycle / missing / "
+            "package-mismatch are errors) + differential correspondence with the real loader on materialised directory trees",
+            "Proof for every layout/entry/search-path list/cwd expressible in the model; tied to module_loader.cpp by running the real "
+            "ModuleLoader::load on the same trees and comparing merged class/function order or the diagnostic kind; a third, doc-based "
+            "reference resolver is the property oracle.",
+            "Trusted: Lean kernel (core-only), harness+orchestrator. Not modelled: symlinks, '..', case folding, weakly_canonical; a source "
+            "file is abstracted to package line, imports, class and function names.", "DESIGN.md §4 C19"),
 }
 PENDING_REASON = "check not built yet in this revision of /verif (planned: Lean model + correspondence, see DESIGN.md §4)"
 
